@@ -51,6 +51,7 @@ class Ctx:
         self.timer = lvlib.Timer()
         self.violations = []
         self.known_lines = []
+        self._recheck = {}
         self.cov = {"obligations": 0, "discharged": 0, "checker_cmd": "", "trusted_base": list(TRUSTED_BASE),
                     "programs": 0, "evaluations": 0, "distinct_nontrivial": 0, "rule": "",
                     "disagreements_checked": 0, "traces_validated_against_impl": 0, "samples": [],
@@ -130,6 +131,7 @@ class Ctx:
         decision for decision on the twin and only the safety view (returns, clocks, status arrays,
         object states without DPOR fields, termination class) is compared.
         Returns (impl records, list of disagreements)."""
+        self._cap = max_iters
         impl = lvlib.run_impl(programs, max_iters=max_iters)
         twin = lvlib.run_twin(programs, max_iters=max_iters)
         dis = []
@@ -184,7 +186,7 @@ class Ctx:
         return list(bad.items())
 
     # ------------------------------------------------------------------ reference outcomes
-    def sc_check(self, programs, impl, max_states, soundness=True, completeness=True, exact=False):
+    def sc_check(self, programs, impl, max_states, soundness=True, completeness=True, exact=False, _record=True):
         """Compare the implementation's explored outcomes with the outcomes of the reference
         interleaving semantics (Spec/SC.lean).  Returns a list of failures
         (program, kind, outcome) with kind in forbidden / missing / missed_failure."""
@@ -246,12 +248,17 @@ class Ctx:
                     failures.append((p, "missed_failure", fail[0]))
                 elif miss:
                     failures.append((p, "missing", miss[0]))
+        if not _record:
+            return failures
+        for p, _k, _o in failures:
+            self._recheck[p] = lambda q, a=(max_states, soundness, completeness, exact): self.sc_check(
+                [q], lvlib.run_impl([q], max_iters=getattr(self, "_cap", 20000)), a[0], a[1], a[2], a[3], _record=False)
         for k, v in stats.items():
             self.cov.setdefault("reference", {})
             self.cov["reference"][k] = self.cov["reference"].get(k, 0) + v
         return failures
 
-    def rc11_check(self, programs, impl, lower=True, upper=True, races=False):
+    def rc11_check(self, programs, impl, lower=True, upper=True, races=False, _record=True):
         """Compare explored outcomes with RC11 (Spec/RC11.lean): every outcome of the `strong`
         instance must be explored (lower bound, C02), every explored outcome must be an outcome of
         the `doc` instance (upper bound, C03).  With races=True only the verdicts are compared
@@ -288,10 +295,68 @@ class Ctx:
                 miss = sorted(lo - explored)
                 if miss:
                     failures.append((p, "missing", miss[0]))
+        if not _record:
+            return failures
+        for p, _k, _o in failures:
+            self._recheck[p] = lambda q, a=(lower, upper, races): self.rc11_check(
+                [q], lvlib.run_impl([q], max_iters=getattr(self, "_cap", 20000)), a[0], a[1], a[2], _record=False)
         self.cov.setdefault("reference", {})
         for k, v in stats.items():
             self.cov["reference"][k] = self.cov["reference"].get(k, 0) + v
         return failures
+
+    # ------------------------------------------------------------------ shrinking
+    @staticmethod
+    def removals(prog):
+        """programs obtained by deleting one operation (an `ifeq` that refers to / jumps over the deleted operation
+        is adjusted; the operation an `ifeq` refers to is never deleted)"""
+        head, *ths = prog.split(" | ")
+        bodies = [t.split(": ", 1)[1].split("; ") if ": " in t else [] for t in ths]
+        out = []
+        for t, ops in enumerate(bodies):
+            for j in range(len(ops)):
+                new, ok = [], True
+                for k, o in enumerate(ops):
+                    if k == j:
+                        continue
+                    a = o.split()
+                    if a and a[0] == "ifeq":
+                        i, n = int(a[1]), int(a[3])
+                        if j == k - i:
+                            ok = False
+                            break
+                        if k - i < j < k:
+                            i -= 1
+                        if k < j <= k + n:
+                            n -= 1
+                        o = f"ifeq {i} {a[2]} {n}"
+                    new.append(o)
+                if ok:
+                    nb = bodies[:t] + [new] + bodies[t + 1:]
+                    out.append(head + " | " + " | ".join((f"T{k}: " + "; ".join(b)).rstrip() for k, b in enumerate(nb)))
+        return out
+
+    def shrink(self, prog, kind, budget=80):
+        """greedy one-operation-at-a-time minimisation of a failing input: a smaller program is kept if the same
+        oracle reports a failure of the same kind on it"""
+        recheck = self._recheck.get(prog)
+        if recheck is None:
+            return None
+        cur, improved = prog, True
+        while improved and budget > 0:
+            improved = False
+            for cand in self.removals(cur):
+                budget -= 1
+                if budget <= 0:
+                    break
+                try:
+                    f = recheck(cand)
+                except Exception:
+                    continue
+                if any(k == kind for (_q, k, _o) in f):
+                    cur, improved = cand, True
+                    break
+        return cur if cur != prog else None
 
     def attribute(self, failures, differing, extra=None):
         """known-finding protocol: a failure is attributed to a listed finding only on a program on
@@ -319,8 +384,10 @@ class Ctx:
             else:
                 unlisted += 1
                 if unlisted <= 5:
+                    mini = self.shrink(p, kind) if unlisted <= 2 else None
                     self.violation("oracle-" + kind,
                                    {"outcome": outcome, "implementation_equals_twin": p not in differing,
+                                    **({"minimized_program": mini} if mini else {}),
                                     "note": "outcome is in the format of Spec/SC.lean: verdict, then thread:pc=result",
                                     **(extra or {})}, found_input=True, program=p)
         return unlisted
